@@ -889,7 +889,7 @@ pub fn gen_group(group: &str, rng: &mut Rng, thorough: bool, em: &mut Emitter) {
                     _ => emit_history(p, steps, em, &mut discarded), // drifted or failed: once more, alone
                 }
             }
-            let n = if thorough { 60_000 } else { 6_000 };
+            let n = if thorough { 60_000 } else { 5_000 };
             for _ in 0..n {
                 let (p, steps) = gen_history(rng);
                 emit_history(&p, &steps, em, &mut discarded);
